@@ -269,7 +269,26 @@ pub fn failure_key(j: &Judged) -> String {
     }
 }
 
-pub fn minimize(table: &Table, layout: &Layout, q: &Query, j0: &Judged, cache: &mut Option<Db>, budget: usize) -> (Query, Judged) {
+/// the symptom kinds of a rows-mismatch (see `refeval::diff_kind`), without the aggregate names:
+/// `float-for-int`, `value-for-null`, `dup-groups`, `missing-rows`, ...; empty for errors / panics
+pub fn symptoms(q: &Query, table: &Table, j: &Judged) -> Vec<String> {
+    match (&j.verdict, &j.out) {
+        (Err(_), QOut::Rows(rows)) => {
+            let mut v: Vec<String> = refeval::diff_kind(q, &table.rows(), rows)
+                .split('+')
+                .map(|k| k.rsplit(':').next().unwrap_or(k).to_string())
+                .collect();
+            v.sort();
+            v.dedup();
+            v
+        }
+        _ => vec![],
+    }
+}
+
+/// `symptom`: the minimal query must still show this symptom kind (a query that fails in two ways is
+/// minimised once per symptom, so that a known gap cannot hide a second, different wrong value)
+pub fn minimize(table: &Table, layout: &Layout, q: &Query, j0: &Judged, cache: &mut Option<Db>, budget: usize, symptom: Option<&str>) -> (Query, Judged) {
     // start from the observed failure itself: some engine failures depend on the order in which the
     // worker threads finish, so a re-run of the same query need not fail again
     let mut cur = q.clone();
@@ -283,7 +302,7 @@ pub fn minimize(table: &Table, layout: &Layout, q: &Query, j0: &Judged, cache: &
             }
             runs += 1;
             let j = run_and_judge(table, layout, &cand, cache);
-            if j.verdict.is_err() && failure_key(&j) == key {
+            if j.verdict.is_err() && failure_key(&j) == key && symptom.map_or(true, |s| symptoms(&cand, table, &j).iter().any(|x| x == s)) {
                 cur = cand;
                 cur_j = j;
                 continue 'outer;
@@ -298,7 +317,16 @@ pub fn minimize(table: &Table, layout: &Layout, q: &Query, j0: &Judged, cache: &
 pub fn describe(q: &Query, t: &Table, layout: &Layout) -> String {
     let col = |c: usize| -> String {
         let k = match t.cols[c].kind {
-            Kind::Int => "int",
+            Kind::Int => {
+                // `intw`: the column's value range does not fit one byte (wide offset encodings; the
+                // multi-column grouping defects depend on it)
+                let vals: Vec<i128> = t.cols[c].cells.iter().filter_map(|v| if let V::Int(x) = v { Some(*x as i128) } else { None }).collect();
+                let wide = match (vals.iter().min(), vals.iter().max()) {
+                    (Some(lo), Some(hi)) => hi - lo > 255,
+                    _ => false,
+                };
+                if wide { "intw" } else { "int" }
+            }
             Kind::Float => "float",
             Kind::Str => "str",
         };
@@ -349,6 +377,7 @@ pub fn describe(q: &Query, t: &Table, layout: &Layout) -> String {
                 });
                 if absent { "k!".into() } else { "k".into() }
             }
+            Expr::Const(V::Float(_)) if ctx.map_or(false, |c| t.cols[c].kind == Kind::Int) => "kf".into(),
             Expr::Const(_) => "k".into(),
             Expr::Arith(op, l, r) => format!("({} {} {})", go(l, col, t, layout, None), op, go(r, col, t, layout, None)),
             Expr::Cmp(op, l, r) => {
@@ -425,29 +454,48 @@ pub fn describe(q: &Query, t: &Table, layout: &Layout) -> String {
 
 /// Outcome of a case with failure attribution: when the reference rejects the engine's answer the
 /// query is minimised and the bucket is `<failure>|<shape of the minimal failing query>`.
-pub fn outcome_attributed(table: &Table, layout: &Layout, q: &Query, j: &Judged, cache: &mut Option<Db>, extra_why: &str) -> Outcome {
-    let mut o = outcome(table, q, j, extra_why);
+pub fn outcome_attributed(table: &Table, layout: &Layout, q: &Query, j: &Judged, cache: &mut Option<Db>, extra_why: &str) -> Vec<Outcome> {
+    let o = outcome(table, q, j, extra_why);
     // a failure while building the database (ingestion / flush / compaction) does not depend on the
     // query: no minimisation (every attempt would rebuild and, for a hanging flush, wait again)
     if let QOut::Panic(sites) = &j.out {
         if sites.first().map_or(false, |s| s.starts_with("build")) {
+            let mut o = o;
             o.signature = Some(format!("build-failure:{}", crate::db::skeleton(&sites[0])));
-            return o;
+            return vec![o];
         }
     }
-    if j.verdict.is_err() {
-        let (mq, mj) = minimize(table, layout, q, j, cache, 30);
+    if j.verdict.is_ok() {
+        return vec![o];
+    }
+    // one attribution per symptom kind (at most three); identical buckets are reported once
+    let syms = symptoms(q, table, j);
+    let targets: Vec<Option<String>> = if syms.len() <= 1 { vec![None] } else { syms.into_iter().take(3).map(Some).collect() };
+    let budget = if targets.len() > 1 { 20 } else { 30 };
+    let mut outs: Vec<Outcome> = vec![];
+    for t in targets {
+        let (mq, mj) = minimize(table, layout, q, j, cache, budget, t.as_deref());
         let reason = mj.verdict.as_ref().err().cloned().unwrap_or_default();
         let tag = reason.split(':').next().unwrap_or("mismatch").to_string();
         let failure = match &mj.out {
-            QOut::Rows(_) => format!("mismatch:{}", tag),
-            QOut::Err(k, _) if k == "overflow" => format!("mismatch:{}", tag),
+            // the kind of difference is part of the bucket: a known gap suppresses only its own symptom
+            QOut::Rows(rows) => format!("mismatch:{}:{}", tag, refeval::diff_kind(&mq, &table.rows(), rows)),
+            QOut::Err(k, _) if k == "overflow" => format!("mismatch:{}:-", tag),
             other => other.signature(),
         };
-        o.signature = Some(format!("{}|{}", failure, describe(&mq, table, layout)));
-        if let Some(msg) = o.oracle.as_mut() {
+        let sig = format!("{}|{}", failure, describe(&mq, table, layout));
+        if outs.iter().any(|x| x.signature.as_deref() == Some(sig.as_str())) {
+            continue;
+        }
+        let mut oo = outcome(table, q, j, extra_why);
+        oo.signature = Some(sig);
+        if let Some(msg) = oo.oracle.as_mut() {
+            if let Some(t) = &t {
+                msg.push_str(&format!("; symptom `{}`", t));
+            }
             msg.push_str(&format!("; minimal failing query `{}` -> {}", mq.sql(table), short(&mj.out)));
         }
+        outs.push(oo);
     }
-    o
+    outs
 }
